@@ -71,6 +71,26 @@ type PuppetSpec struct {
 	FailReadAt       int       // websocket fake: fail k-th ReadMessage
 	FailWriteAt      int       // websocket fake: fail k-th WriteMessage
 	Name             string
+	Unbuffered       bool // Local: a Peer implementation of the application with unbuffered channels in both directions
+}
+
+// chanPeer is an application-provided wamp.Peer (Router.Attach and
+// client.NewClient accept any implementation) whose channels are unbuffered:
+// the router's send of a message completes only when the client takes it.
+type chanPeer struct {
+	rd <-chan wamp.Message
+	wr chan<- wamp.Message
+}
+
+func (p *chanPeer) Recv() <-chan wamp.Message { return p.rd }
+func (p *chanPeer) Send() chan<- wamp.Message { return p.wr }
+func (p *chanPeer) Close()                    { close(p.wr) }
+func (p *chanPeer) IsLocal() bool             { return true }
+
+func unbufferedPeers() (cli, rtr wamp.Peer) {
+	rToC := make(chan wamp.Message)
+	cToR := make(chan wamp.Message)
+	return &chanPeer{rd: rToC, wr: cToR}, &chanPeer{rd: cToR, wr: rToC}
 }
 
 type sendItem struct {
@@ -506,6 +526,9 @@ func (w *World) AddPuppet(spec PuppetSpec) *Puppet {
 	switch {
 	case spec.Kind == Local:
 		cli, rtr := transport.LinkedPeersQSize(qsize)
+		if spec.Unbuffered {
+			cli, rtr = unbufferedPeers()
+		}
 		p.cliPeer = cli
 		go func() {
 			err := w.Router.Attach(rtr)
